@@ -38,6 +38,14 @@ impl<T> SendBuffer<T> {
     }
 }
 
+#[cfg(genmeta_gm_quic_verif)]
+impl<T: Clone> SendBuffer<T> {
+    /// the frame waiting to be sent, if any (verification harness only)
+    pub fn verif_peek(&self) -> Option<T> {
+        self.item.lock().unwrap().clone()
+    }
+}
+
 impl<F> SendBuffer<F> {
     /// Try load the frame to be sent into the `packet`.
     pub fn try_load_frames_into<P: ?Sized>(&self, packet: &mut P) -> Result<(), Signals>
